@@ -35,6 +35,7 @@ type c12Scenario struct {
 	Senders  [][]int `json:"senders"`        // per sender: target mailbox index of each item
 	Yields   int     `json:"yields_in_work"`
 	AskEvery int     `json:"every_nth_message_is_an_unawaited_ask,omitempty"`
+	NilMsgs  bool    `json:"a_nil_message_to_every_actor,omitempty"`
 	Early    bool    `json:"close_while_senders_active"`
 	EarlyD   int     `json:"close_delay_yields,omitempty"`
 
@@ -46,6 +47,8 @@ type c12Scenario struct {
 	closeRet  uint64
 	closeInv  uint64
 	nMailbox  int
+	nilOps    [][]*Op // per mailbox: the Send(nil) calls
+	nilGot    []int   // per mailbox: nil messages the effect received
 	interleav bool
 }
 
@@ -102,6 +105,7 @@ func genC12(t *simrt.Tape, tier string) Scenario {
 	if sc.Kind == "actor" && t.Bool(1, 3) {
 		sc.AskEvery = 2 + t.Choose(2)
 	}
+	sc.NilMsgs = sc.Kind == "actor" && t.Bool(1, 3)
 	if t.Bool(1, 3) {
 		// Close while senders are still active / a backlog is buffered: everything whose Post/Send
 		// returned before Close was invoked must still be processed exactly once
@@ -171,6 +175,12 @@ func (sc *c12Scenario) Run(s *simrt.Sim) {
 				// a question submitted through the Ask API is an ordinary message of its sender
 				msg = m.Message
 				defer m.Reply(msg)
+			case nil:
+				// nil is a message like any other (counted: every nil that was sent arrives, none is invented)
+				if me >= 0 && me < len(sc.nilGot) {
+					sc.nilGot[me]++
+				}
+				return
 			default:
 				sc.extra = append(sc.extra, Violation{Clause: "exactly-once", Fingerprint: "actor:message-nobody-sent", Detail: fmt.Sprintf("actor %d's effect was called with %T %v, which nobody sent", me, in, in)})
 			}
@@ -276,6 +286,18 @@ func (sc *c12Scenario) Run(s *simrt.Sim) {
 			}
 		}))
 	}
+	sc.nilGot = make([]int, sc.nMailbox)
+	sc.nilOps = make([][]*Op, sc.nMailbox)
+	if sc.NilMsgs {
+		ths = append(ths, s.Go("nil-sender", func() {
+			for mb := range actors {
+				a := actors[mb]
+				sc.nilOps[mb] = append(sc.nilOps[mb], h.Do("nil-sender", "Send(nil)", mb, func() (interface{}, error) { a.Send(nil); return nil, nil }))
+				s.Yield()
+			}
+		}))
+		sc.probes["nil-messages-sent"]++
+	}
 	sendersDone := allDone(ths)
 	doClose := func(who string) {
 		op := h.Do(who, "Close", nil, func() (interface{}, error) { closeAll(); return nil, nil })
@@ -373,6 +395,20 @@ func (sc *c12Scenario) Check(res *simrt.Result) []Violation {
 	vs = append(vs, sc.extra...)
 	add := func(clause, fp, detail string) {
 		vs = append(vs, Violation{Clause: clause, Fingerprint: sc.Kind + ":" + fp, Detail: detail})
+	}
+	for mb := range sc.nilOps {
+		must, tried := 0, len(sc.nilOps[mb])
+		for _, op := range sc.nilOps[mb] {
+			if op.Returned && op.Panic == "" && (!sc.Early || (sc.closeInv != 0 && op.Ret < sc.closeInv)) {
+				must++
+			}
+		}
+		if sc.nilGot[mb] > tried {
+			add("exactly-once", "nil-message-nobody-sent", fmt.Sprintf("actor %d received %d nil messages, %d were sent", mb, sc.nilGot[mb], tried))
+		}
+		if sc.nilGot[mb] < must && res.Reason == "done" && !sc.hung {
+			add("exactly-once", "nil-message-never-processed", fmt.Sprintf("actor %d received %d nil messages; %d Send(nil) calls had returned before Close was invoked (a nil is a message like any other)", mb, sc.nilGot[mb], must))
+		}
 	}
 	if res.Reason != "done" {
 		add("hang", "run-did-not-finish", "run ended with reason "+res.Reason)
